@@ -2,6 +2,7 @@ package tea
 
 import (
 	"context"
+	"errors"
 	"fmt"
 	"io"
 	"regexp"
@@ -564,6 +565,22 @@ loop:
 		// Read and block.
 		numBytes, err := input.Read(buf[:])
 		if err != nil {
+			if errors.Is(err, io.EOF) {
+				// Nothing more will arrive: decode what was held back while
+				// waiting for the rest of an event.
+				for b := leftOverFromPrevIteration; len(b) > 0; {
+					w, msg := detectOneMsg(b, false)
+					if w == 0 {
+						break
+					}
+					select {
+					case msgs <- msg:
+					case <-ctx.Done():
+						return fmt.Errorf("found context error while reading input: %w", ctx.Err())
+					}
+					b = b[w:]
+				}
+			}
 			return fmt.Errorf("error reading input: %w", err)
 		}
 		b := buf[:numBytes]
@@ -612,6 +629,13 @@ var (
 )
 
 func detectOneMsg(b []byte, canHaveMoreData bool) (w int, msg Msg) {
+	// The buffer was filled completely and b runs up to its end: if b may be
+	// the beginning of an event whose remainder has not been read yet, ask
+	// for more data instead of decoding a fragment.
+	if canHaveMoreData && isIncompleteEvent(b) {
+		return 0, nil
+	}
+
 	// Detect mouse events.
 	// X10 mouse events have a length of 6 bytes
 	const mouseEventX10Len = 6
@@ -671,6 +695,10 @@ func detectOneMsg(b []byte, canHaveMoreData bool) (w int, msg Msg) {
 	for rw := 0; i < len(b); i += rw {
 		var r rune
 		r, rw = utf8.DecodeRune(b[i:])
+		if r == utf8.RuneError && canHaveMoreData && !utf8.FullRune(b[i:]) {
+			// The buffer ends inside a multi-byte character.
+			return 0, nil
+		}
 		if r == utf8.RuneError || r <= rune(keyUS) || r == rune(keyDEL) || r == ' ' {
 			// Rune errors are handled below; control characters and spaces will
 			// be handled by detectSequence in the next call to detectOneMsg.
